@@ -146,6 +146,8 @@ EqSound == \A i \in DOMAIN hist : hist[i].c = "Eq" => (hist[i].val <=> want[hist
 NoSharing == \A a, b \in DOMAIN sobj : a # b =>
   {sobj[a].grp["p"], sobj[a].grp["q"], sobj[a].g} \cap {sobj[b].grp["p"], sobj[b].grp["q"], sobj[b].g} = {}
 
-\* generator: one line per complete history
-Emit == (Len(hist) = MaxLen + 1) => PrintT(<<"HIST", ToJson(hist)>>)
+\* generator: the domain with every initial state, one line per complete history
+Emit ==
+  /\ (Len(hist) = 1) => PrintT(<<"HEADER", ToJson([dom |-> DomTree])>>)
+  /\ (Len(hist) = MaxLen + 1) => PrintT(<<"HIST", ToJson(hist)>>)
 =============================================================================
